@@ -6,27 +6,30 @@ from . import core, e4
 
 def run(tier):
     res = core.Result("C12", tier)
-    out = e4.run_suite("history", tier, timeout=7200)
-    for p in out["programs"]:
-        res.add(states=p["states"], transitions=p["transitions"], traces=2 * p["transitions"], evaluations=p["transitions"])
-        res.parts[p["program"]] = {"ops": p["ops"], "states": p["states"], "transitions": p["transitions"], "disabled_ops": p["disabled"],
-                                   "completed_depth": p["completed_depth"], "per_depth": p["per_depth"]}
-        if p["capped"]:
-            res.caps.append("%s: wall-clock cap hit, completed depth %d" % (p["program"], p["completed_depth"]))
-        for d in p["per_depth"]:
-            res.outcome((p["program"], d["depth"], d["new_states"] > 0))
-        seen = set()
-        for v in p["violations"]:
-            last = v["history"][-1]
-            cls = "proxy_panics" if "proxy panics" in v["what"] else "state_differs" if "chain state differs" in v["what"] else "result_differs"
-            opkind = last.split(" ")[0].split("{")[0].strip()
-            key = (cls, opkind, v["what"][:60])
-            if key in seen:
-                continue
-            seen.add(key)
-            res.violation({"kind": "history", "cls": cls, "op": opkind, "program": v["program"], "history": v["history"], "ops": v["ops"],
-                           "what": "%s after %s: %s" % (v["program"], " ; ".join(v["history"]), v["what"][:600])})
-        res.sample({"program": p["program"], "operation_alphabet": p["op_alphabet"][:8], "example_history": p["op_alphabet"][:1] + p["op_alphabet"][2:3] + p["op_alphabet"][8:9]})
+    out = e4.run_suite_into(res, "history", tier, timeout=7200)
+    if out is not None:
+        for p in out["programs"]:
+            res.add(states=p["states"], transitions=p["transitions"], traces=2 * p["transitions"], evaluations=p["transitions"])
+            res.parts[p["program"]] = {"ops": p["ops"], "states": p["states"], "transitions": p["transitions"], "disabled_ops": p["disabled"],
+                                       "completed_depth": p["completed_depth"], "per_depth": p["per_depth"]}
+            if p["capped"]:
+                res.caps.append("%s: wall-clock cap hit, completed depth %d" % (p["program"], p["completed_depth"]))
+            for d in p["per_depth"]:
+                res.outcome((p["program"], d["depth"], d["new_states"] > 0))
+            seen = set()
+            for v in p["violations"]:
+                last = v["history"][-1]
+                cls = "proxy_panics" if "proxy panics" in v["what"] else "state_differs" if "chain state differs" in v["what"] else "result_differs"
+                opkind = last.split(" ")[0].split("{")[0].strip()
+                key = (cls, opkind, v["what"][:60])
+                if key in seen:
+                    continue
+                seen.add(key)
+                res.violation({"kind": "history", "cls": cls, "op": opkind, "program": v["program"], "history": v["history"], "ops": v["ops"],
+                               "what": "%s after %s: %s" % (v["program"], " ; ".join(v["history"]), v["what"][:600])})
+            res.sample({"program": p["program"], "operation_alphabet": p["op_alphabet"][:8], "example_history": p["op_alphabet"][:1] + p["op_alphabet"][2:3] + p["op_alphabet"][8:9]})
+    else:
+        out = e4.stub()
     res.nontrivial = set(range(sum(p["transitions"] for p in out["programs"])))
     res.cov["rule"] = ("breadth-first search over sequences of multitest operations (store_code; instantiate x {argument incl. a refusing one} x option subsets of "
                        "{label, admin, funds, salt} x sender; every exec / query / sudo proxy of contract and interface x arguments incl. failing ones x funds x "
